@@ -154,10 +154,11 @@ theorem repeated_run_noop (cfg : Cfg) (hn : 0 < cfg.n) (first again : Call) (st 
 ANY consistent state with a readable original (no output, complete output, partial files of an interrupted run, stale
 `.cbin`/`.cbin_tmp`, altered files …), `process(overwrite=True)` left alone by the environment -- on a new object or on
 the same one -- returns 1 and every stream of every shank is complete (compressed or not, as requested); the original is
-still readable unless this very run verified and deleted it. -/
+still readable unless this very run verified and deleted it.  (`htr`: an NP2.1 `.bin` that ends with a partial frame
+cannot be compressed in place, see `np21_trailing_compress_counterexample`.) -/
 theorem forced_rerun_completes (cfg : Cfg) (call : Call) (st : St) (ob : Obj) (hs : StOk st)
     (h0 : OrigHolds st.disk) (ha : actingObj cfg call st = some ob) (h : OnOriginalNP2 cfg ob)
-    (hw : call.overwrite = true) (hf : NoFault cfg call) :
+    (htr : cfg.kind = .np21 → cfg.trailing = false) (hw : call.overwrite = true) (hf : NoFault cfg call) :
     (run cfg call st).2 = .ret 1 ∧ Complete cfg ob.opts.compress (run cfg call st).1.disk ∧
     (OrigHolds (run cfg call st).1.disk ∨
       (cfg.kind = .np24 ∧ ob.opts.postCheck = true ∧ ob.opts.deleteOriginal = true)) := by
@@ -176,13 +177,14 @@ theorem forced_rerun_completes (cfg : Cfg) (call : Call) (st : St) (ob : Obj) (h
       · exact hok.1 hcc
   · rw [processObj_np21 cfg ob call _ ho hk (apFileExists_of_holds _ ob hok ho h0)]
     have hl := (hok.2.1 ho (origReadable_ne_absent h0)).1
-    obtain ⟨a, b, c⟩ := process21_completes cfg ob call st.disk h0 hl (Or.inr hw) hf.1
+    obtain ⟨a, b, c⟩ := process21_completes cfg ob call st.disk h0 hl (htr hk) (Or.inr hw) hf.1
     exact ⟨a, by simp only [Complete, hk]; exact ⟨b, c⟩, Or.inl (process21_keeps cfg ob call _ h0)⟩
 
 /-- **First run**: without earlier output, `process()` of a new object left alone by the environment completes in the
 same sense. -/
 theorem first_run_completes (cfg : Cfg) (call : Call) (st : St) (ob : Obj) (hr : call.reuse = false)
-    (ha : actingObj cfg call st = some ob) (h : OnOriginalNP2 cfg ob) (hno : NoOutput cfg st.disk) (hf : NoFault cfg call) :
+    (ha : actingObj cfg call st = some ob) (h : OnOriginalNP2 cfg ob) (htr : cfg.kind = .np21 → cfg.trailing = false)
+    (hno : NoOutput cfg st.disk) (hf : NoFault cfg call) :
     (run cfg call st).2 = .ret 1 ∧ Complete cfg ob.opts.compress (run cfg call st).1.disk ∧
     (OrigHolds (run cfg call st).1.disk ∨
       (cfg.kind = .np24 ∧ ob.opts.postCheck = true ∧ ob.opts.deleteOriginal = true)) := by
@@ -204,7 +206,7 @@ theorem first_run_completes (cfg : Cfg) (call : Call) (st : St) (ob : Obj) (hr :
     rw [processObj_np21 cfg ob call _ ho hk he]
     simp only [NoOutput, hk] at hno
     have hl : lfExists st.disk = false := by simp [lfExists, hno.1, hno.2]
-    obtain ⟨a, b, c⟩ := process21_completes cfg ob call st.disk h0 (hlink ho).2 (Or.inl hl) hf.1
+    obtain ⟨a, b, c⟩ := process21_completes cfg ob call st.disk h0 (hlink ho).2 (htr hk) (Or.inl hl) hf.1
     exact ⟨a, by simp only [Complete, hk]; exact ⟨b, c⟩, Or.inl (process21_keeps cfg ob call _ h0)⟩
 
 /-- **Run interrupted at any processing step and then retried with overwrite** -- on the same object or on a new one:
@@ -212,11 +214,11 @@ the retry completes. -/
 theorem interrupted_then_forced_completes (cfg : Cfg) (first retry : Call) (st : St) (hs : StOk st)
     (h0 : OrigHolds st.disk) (e : Err) (h1 : (run cfg first st).2 = .raised e) (ob : Obj)
     (ha : actingObj cfg retry (run cfg first st).1 = some ob) (h : OnOriginalNP2 cfg ob)
-    (hw : retry.overwrite = true) (hf : NoFault cfg retry) :
+    (htr : cfg.kind = .np21 → cfg.trailing = false) (hw : retry.overwrite = true) (hf : NoFault cfg retry) :
     (run cfg retry (run cfg first st).1).2 = .ret 1 ∧
     Complete cfg ob.opts.compress (run cfg retry (run cfg first st).1).1.disk :=
   let h2 := interrupted_run_keeps_original cfg first st h0 e h1
-  let r := forced_rerun_completes cfg retry _ ob (run_stOk cfg first st hs) h2 ha h hw hf
+  let r := forced_rerun_completes cfg retry _ ob (run_stOk cfg first st hs) h2 ha h htr hw hf
   ⟨r.1, r.2.1⟩
 
 /-- **Input that is not an NP2 probe, or is an already split shank**: status -1 resp. 0, nothing on disk changes --
@@ -231,6 +233,22 @@ theorem not_np2_or_split_untouched (cfg : Cfg) (call : Call) (st : St) (hs : StO
   refine ⟨fun hk ho h0 => ?_, fun ho => ?_⟩
   · rw [processObj_np1 cfg ob call _ ho hk (apFileExists_of_holds _ ob hok ho h0)]; exact ⟨rfl, rfl⟩
   · rw [processObj_onShank cfg ob call _ ho]; exact ⟨rfl, rfl⟩
+
+/-- **Finding `np21-trailing-bytes-compress`** (the hypothesis `htr`).  An NP2.1 `.bin` with trailing bytes after its last complete
+frame: the lf file and its metadata are written, then `compress_NP21` hands the original to mtscomp, which refuses the file
+size with a ValueError; `process()` raises instead of returning 1 (the original is untouched, the output is not the
+compressed set that was asked for).  For every configuration and window size. -/
+theorem np21_trailing_compress_counterexample (cfg : Cfg) (hk : cfg.kind = .np21) (htr : cfg.trailing = true) (call : Call)
+    (hr : call.reuse = false) (hs : call.onShank = false) (hc : call.opts.compress = true) (hi : call.interrupt = none)
+    (hw : call.overwrite = true) :
+    (run cfg call (St.start (fresh .bin))).2 = .raised .valueError ∧ OrigHolds (run cfg call (St.start (fresh .bin))).1.disk := by
+  have ha : actingObj cfg call (St.start (fresh .bin)) =
+      some { opts := call.opts, onShank := false, srForm := .bin, checkCompleted := false, alreadyExists := false } := by
+    simp [actingObj, hr, construct, hs, St.start, fresh, origReadable, Except.toOption]
+  have h1 : (run cfg call (St.start (fresh .bin))).2 = .raised .valueError := by
+    rw [run_acting cfg call _ _ ha]
+    simp [processObj, apFileExists, St.start, fresh, hk, process21, hw, hi, hc, origCompressFails, htr, lfExists, FileSet.empty]
+  exact ⟨h1, interrupted_run_keeps_original cfg call _ rfl _ h1⟩
 
 /-! ### Non-vacuity, and the counterexample of the known finding -/
 
